@@ -144,7 +144,7 @@ def main():
         # overdamped Brownian spectral density, internal units
         return 2.0 * lam * w * (1.0 / tau) / (w * w + (1.0 / tau) ** 2)
 
-    nsys = 10 if ck.thorough else 4
+    nsys = 10 if ck.thorough else 5
     for s in range(nsys):
         Nm = int(rng.randint(2, 5))
         reorg = rng.uniform(15, 60, size=Nm)
@@ -167,6 +167,9 @@ def main():
         valuedef = (s % 4 == 3)
         if valuedef:
             reorg[:] = reorg[0]
+        # bath functions that were already used for another aggregate's
+        # rates and were then extended in place (cf += second component)
+        extended = (s % 5 == 4)
 
         def build_ag(nt, dt):
             tax = qr.TimeAxis(0.0, nt, dt)
@@ -192,7 +195,27 @@ def main():
                                    reorg=float(reorg[i]),
                                    cortime=float(cort[i]), T=Temp2,
                                    matsubara=100)
+                    if extended:
+                        prm = dict(ftype="OverdampedBrownian",
+                                   reorg=0.6 * float(reorg[i]),
+                                   cortime=float(cort[i]), T=Temp2,
+                                   matsubara=100)
                     cfx = qr.CorrelationFunction(tax, prm)
+                    if extended:
+                        m0 = qr.Molecule([0.0, float(en[i])])
+                        m0.set_transition_environment((0, 1), cfx)
+                        m1 = qr.Molecule([0.0, float(en[i]) + 150.0])
+                        m1.set_transition_environment((0, 1), cfx)
+                        a0 = qr.Aggregate([m0, m1])
+                        a0.set_resonance_coupling(0, 1, 50.0)
+                        a0.build()
+                        RedfieldRateMatrix(a0.get_Hamiltonian(),
+                                           a0.get_SystemBathInteraction())
+                        cfx += qr.CorrelationFunction(tax, dict(
+                            ftype="OverdampedBrownian",
+                            reorg=0.4 * float(reorg[i]),
+                            cortime=0.5 * float(cort[i]), T=Temp2,
+                            matsubara=100))
                     if valuedef:
                         cfx = qr.CorrelationFunction(
                             tax, dict(ftype="Value-defined",
@@ -216,7 +239,8 @@ def main():
         sbi = ag.get_SystemBathInteraction()
         rp = dict(kind="aggregate", seed=ck.seed, system=s, N=Nm, T=Temp2,
                   composite_bath=bool(composite),
-                  value_defined_bath=bool(valuedef))
+                  value_defined_bath=bool(valuedef),
+                  bath_extended_in_place=bool(extended))
         with ck.guarded("redfield-rates", "aggregate", rp, rp):
             RRm = RedfieldRateMatrix(ham, sbi)
             K = numpy.array(RRm.data)
@@ -268,7 +292,10 @@ def main():
                             val += (SS[site + 1, a] ** 2 * SS[site + 1, b] ** 2
                                     * (1.0 + 1.0 / math.tanh(
                                         w / (2 * kB_int * Temp2)))
-                                    * Jw(w, lam, cort[site]))
+                                    * (Jw(w, lam, cort[site])
+                                       if not extended else
+                                       Jw(w, 0.6 * lam, cort[site]) +
+                                       Jw(w, 0.4 * lam, 0.5 * cort[site])))
                         # tolerance: 3 x the step-halving estimate (the
                         # error falls by ~3 when the step is halved, so the
                         # estimate is ~2/3 of the error) + 2e-3
